@@ -1,5 +1,6 @@
 import Proofs.Distance
 import Proofs.DeepDistance
+import Proofs.DeepDistanceList
 /-!
 # C19 — pairing distances lie in `[0, max]` and are `0` only for equal values
 
@@ -117,6 +118,16 @@ theorem C19_deep_distance_nested_dicts (cfg : DCfg) (hp : Diff.Plain cfg) (al : 
   refine ⟨h1, by omega, fun h0 => ?_⟩
   rw [h0] at h1
   simpa using h1
+
+/-- **deep_distance of two lists of scalars compared position by position** (`zip_ordered_iterables=True`): numerator ≤ denominator
++ number of type changes, and the denominator is the two lengths plus the two containers; so without a type change the
+distance lies in [0, 1] -/
+theorem C19_deep_distance_positional_lists (cfg : DCfg) (hp : Diff.Plain cfg) (hz : cfg.zip = true) (al : Align) (hashOf : PyVal → String)
+    (xs ys : List PyVal) (hbx : ∀ x ∈ xs, isBasic x = true) (hby : ∀ y ∈ ys, isBasic y = true) :
+    (deepDistance cfg al hashOf (.list xs) (.list ys)).1 ≤ (deepDistance cfg al hashOf (.list xs) (.list ys)).2 +
+        (buildDelta true false (.list xs) (.list ys) (deepDiff cfg al hashOf (.list xs) (.list ys))).typeChanges.length ∧
+    (deepDistance cfg al hashOf (.list xs) (.list ys)).2 = xs.length + ys.length + 2 :=
+  list_deep_distance cfg hp hz al hashOf xs ys hbx hby
 
 /-- the property is **false** where the code is (finding F13a): `DeepDiff(1, '', get_deep_distance=True)` has numerator 3
 (two type objects and the new value) over denominator 2 -/
